@@ -22,7 +22,7 @@ RULE = ("plan = (frame) two frames (1..8 rows quick / 1..20 thorough; key column
         "column leaves every operand snapshot unchanged and vice versa. Documented exceptions encoded: group_by (returns the "
         "receiver), copy (shallow). Non-trivial: a call whose result has ≥ 1 row and ≥ 1 column originating from an operand. "
         "Distinct = plan hash.")
-CASES = {"quick": 2500, "thorough": 6000}
+CASES = {"quick": 2500, "thorough": 12000}
 
 FRAME_METHODS = [
     "filter", "filter_out", "filter_kv", "slice", "slice_off", "head", "tail", "drop_na", "sample", "unique", "sort",
